@@ -6,6 +6,7 @@ from vlib.interp import (Interp, BuilderInvalid, per_char, describe, mk_settings
 from ansi_string import AnsiString, AnsiStr
 from ansi_string.ansi_format import AnsiSetting
 
+QUICK_SCALE = 1.0
 RULE = ('values = generated programs (both classes) x selection (a setting present somewhere in the value, two of them, an absent one, '
         'empty; in several spellings) x start/end in {None} U [-14,14] U {+-100,+-10^6} x reverse; sub-check allranges enumerates every '
         '(start, end) in {None} U [-len-2, len+2] for each generated value and selection. Non-trivial = the selection is present on a '
